@@ -47,7 +47,7 @@ func (c07) Info() core.Info {
 			"pointer_field is 0 (the statement does not quantify over pointer_field for the PAT) and program numbers are distinct",
 			"after an injected reader error ReadPAT may return that error or the exact answer; nothing else is relaxed",
 		},
-		RequiredProbes: []string{"entries_0", "entries_1_program", "entries_1_network", "entries_ge3", "entries_42", "pid_gt_255", "pat_after_foreign", "no_pat", "eof_inside_pat", "one_byte_reads", "second_pat_ignored", "pat_with_af", "caller_scribbles_program_map"},
+		RequiredProbes: []string{"entries_0", "entries_1_program", "entries_1_network", "entries_ge3", "entries_42", "pid_gt_255", "pat_after_foreign", "no_pat", "eof_inside_pat", "one_byte_reads", "second_pat_ignored", "pat_with_af", "caller_scribbles_program_map", "held_pat_rechecked", "af_only_packet_before_pat"},
 	}
 }
 
@@ -113,6 +113,16 @@ func (c07) Size(script interface{}) int {
 }
 
 func c07Foreign(i, salt int) parties.Pkt {
+	if (i*7+salt)%5 == 0 {
+		// adaptation field only, no payload (e.g. a PCR-only packet of the video PID)
+		var p parties.Pkt
+		p[0], p[1], p[2], p[3], p[4], p[5] = 0x47, 0x01, 0x00, 0x20|byte(i&0x0f), 183, 0x10
+		copy(p[6:], []byte{0x00, 0x01, 0x02, 0x03, 0x7E, 0x00})
+		for k := 12; k < 188; k++ {
+			p[k] = 0xFF
+		}
+		return p
+	}
 	switch (i + salt) % 3 {
 	case 0:
 		return parties.NullPacket(salt + i)
@@ -250,6 +260,12 @@ func (c07) Exec(script interface{}, c *core.Ctx) {
 		return true
 	}
 
+	// decoded objects are kept and checked again after later, different decodes
+	type heldPAT = struct {
+		p       psi.PAT
+		carrier string
+	}
+	var held []heldPAT
 	// carrier 1: payload bytes (exact, and as carried in the packet with stuffing)
 	for _, pl := range [][]byte{payload, patPkt[off:]} {
 		var p psi.PAT
@@ -265,6 +281,7 @@ func (c07) Exec(script interface{}, c *core.Ctx) {
 		if !checkPAT(p, "payload") {
 			return
 		}
+		held = append(held, heldPAT{p, "payload"})
 	}
 	// carrier 2: the whole 188-byte packet
 	{
@@ -281,6 +298,7 @@ func (c07) Exec(script interface{}, c *core.Ctx) {
 		if !checkPAT(p, "packet") {
 			return
 		}
+		held = append(held, heldPAT{p, "packet"})
 	}
 	// nil PAT
 	{
@@ -338,6 +356,12 @@ func (c07) Exec(script interface{}, c *core.Ctx) {
 	}
 	if found && patIdx > 0 {
 		c.Probe("pat_after_foreign")
+		for i := 0; i < patIdx; i++ {
+			if seq[i][3]&0x30 == 0x20 {
+				c.Probe("af_only_packet_before_pat")
+				break
+			}
+		}
 	}
 	if found && s.Second {
 		c.Probe("second_pat_ignored")
@@ -374,6 +398,40 @@ func (c07) Exec(script interface{}, c *core.Ctx) {
 	}
 	if !checkPAT(p, "stream") {
 		return
+	}
+	held = append(held, heldPAT{p, "stream"})
+	c07Recheck(c, s, held, checkPAT)
+}
+
+// c07Recheck decodes a different PAT through every carrier and then checks the
+// objects decoded earlier again: a decoded PAT must not change under later decodes.
+func c07Recheck(c *core.Ctx, s *C07Script, held []struct {
+	p       psi.PAT
+	carrier string
+}, check func(psi.PAT, string) bool) {
+	decoy := ref.PATSpec{TSID: 9, Version: 1, Reserved: 7, Entries: []ref.PATEntry{{Program: 4242, PID: 0x0abc}, {Program: 4243, PID: 0x0abd}, {Program: 0, PID: 0x11}}}
+	pl := ref.Payload(0, [][]byte{decoy.Section()}, 0)
+	var pk parties.Pkt
+	pk[0], pk[1], pk[2], pk[3] = 0x47, 0x40, 0x00, 0x12
+	copy(pk[4:], pl)
+	for k := 4 + len(pl); k < 188; k++ {
+		pk[k] = 0xFF
+	}
+	ok := c.Call("decoy decodes", func() {
+		for i := 0; i < 3; i++ {
+			psi.NewPAT(append([]byte(nil), pk[:]...))
+			psi.NewPAT(append([]byte(nil), pl...))
+			psi.ReadPAT(parties.NewSimReader(pk[:], nil, nil))
+		}
+	})
+	if !ok {
+		return
+	}
+	c.Probe("held_pat_rechecked")
+	for _, h := range held {
+		if !check(h.p, "held_"+h.carrier) {
+			return
+		}
 	}
 }
 
